@@ -57,23 +57,41 @@ if os.path.exists(rp):
         f = l.split('\t')
         res[f[0]] = f
 sec9 = ["## 9. Seeded changes: which check catches what", "",
- "Sixty-four realistic code changes (`seeded/<id><A-D>/`: two per property in a first round, two more for twelve properties in a second round,",
- "whose authors were also told the mechanisms of the first) were written by fresh sub-agents that were given only the property text and a",
+ "Eighty realistic code changes (`seeded/<id><A-D>/`: two per property in a first round, two more per property in a second round, whose authors",
+ "were also told the mechanisms of the first) were written by fresh sub-agents that were given only the property text and a",
  "scratch git worktree of `/repo` -- nothing from `/verif`. Each change compiles and keeps the repository's suite green; each comes with a demonstration",
  "test that passes on the unchanged tree and fails with the patch, which I re-ran myself in a scratch worktree before keeping the change",
  "(`bin/seedverify`; `meta.json.confirmed_by_me`). `bin/seedtest <dir> <tier> <ids>` applies a patch to `/repo` (3-way), runs the named checks and",
  "reverts; `bin/seedmatrix` does it for all of them and writes `seeded/RESULTS.tsv`. No patch was ever committed to `/repo`; all worktrees are removed.",
  "Patches rebased after my own fixes moved the surrounding code: C04A, C05B, C13B, C18A, C18B, C18C.",
  "",
- "Round 1: all 37 live changes were caught by the quick tier as it stood. Round 2 (24 changes): having read the authors' reports I expected",
- "misses for C01C, C01D, C05C and C18C and extended `Router.tla` (registrations for two methods at once, a small three-registration variant in the",
- "quick tier), `CtxLifecycle.tla` (an empty catch-all) and `CookieJar.tla` (IPv6 literal hosts) *before* measuring; measured after that, 16 of 24 were",
- "caught and 8 missed (C04D, C05D, C07C, C07D, C15C, C15D, C18D, and C18C whose patch no longer applied after the fix it had provoked). So about half of",
- "the second round would have slipped through the checks as they stood before it. Every miss pointed at a dimension the specification had left",
- "out, and the specification (not just the driver) was extended until the change was caught -- never the other way round. Final state: 61 of 61",
- "live changes are caught by the quick tier, 3 are neutralised by my own fixes. The notes column says what was added.", "",
+ "Round 1 (40 changes): all 37 live ones were caught by the quick tier as it stood. Round 2 came in two batches. First batch (24 changes, 12",
+ "properties): having read the authors' reports I expected misses for C01C, C01D, C05C and C18C and extended `Router.tla`, `CtxLifecycle.tla` and",
+ "`CookieJar.tla` *before* measuring; measured after that, 16 were caught and 8 missed. Second batch (16 changes, the other 8 properties), measured",
+ "against the checks exactly as they stood: **4 caught, 12 missed**. So roughly half of the second round slipped through the checks that had",
+ "caught all of the first -- the scopes chosen while building had been shaped by the defects found while building. Every miss pointed at a",
+ "dimension the specification had left out (a spelling of a prefix, a value class, a second application, a recycled buffer, a failing handler,",
+ "concurrency on one middleware instance, how a redirect is issued ...), and the specification -- not just the driver -- was extended until the",
+ "change was caught; no check was loosened. Final state: 77 of 77 live changes are caught by the quick tier, 3 are neutralised by my own fixes.",
+ "The notes column says what was added.", "",
  "| seed | change (one line) | caught by (quick tier) | rc | violations | notes |", "|---|---|---|---|---|---|"]
 NOTES = {
+ 'C02C': 'caught as the check stood (the stale catch-all value also shows in C05)',
+ 'C02D': 'missed at first; `PathMatch.tla` got a non-ASCII letter (three bytes, percent-encoded and raw) among the values',
+ 'C03C': 'missed at first; the pattern pool got a two-byte delimiting literal whose first byte also occurs inside values',
+ 'C03D': 'caught as the check stood',
+ 'C06C': 'missed at first; `Immutable.tla` got the `Churn` step and `StableInHandler`: values must still read as taken after the handler used scratch-buffer helpers',
+ 'C06D': 'missed at first; accessor `Range().Type` added',
+ 'C08C': 'missed at first; the app pool got a prefix written with a trailing slash at the mount call',
+ 'C08D': 'missed at first; the app pool got a prefix with capitals (requested in the same spelling)',
+ 'C10C': 'missed at first; `TrustProxy.tla` got forwarded scheme values other than https',
+ 'C10D': 'missed at first; a sibling application derived from `Config()` is created before any request (Out has no argument for other applications)',
+ 'C12C': 'caught as the check stood',
+ 'C12D': 'missed at first; `Flash.tla` got the way the redirect is issued (To / Route / Route with queries / Back)',
+ 'C19C': 'caught as the check stood',
+ 'C19D': 'missed at first; all cases are now served on one recycled RequestCtx, as a keep-alive connection does',
+ 'C20C': 'missed at first; `EncryptCookie.tla` got the outcome of the first handler (returns an error after setting the cookies)',
+ 'C20D': 'missed at first; the first step is also performed by 8 clients at once on one middleware instance',
  'C14B': 'neutralised by fix `bd72493` (the flipped release guard is unreachable once the entry is fetched under the lock); demonstration no longer fails',
  'C12B': 'neutralised by fix `6cd3566` (decoding starts from zeroed slots)',
  'C07B': 'neutralised by fix `ca5d8ed` (every value written through `setCanonical` is sanitised); the argument class `utf8crlf` was added to `Wire.tla` anyway',
